@@ -128,6 +128,10 @@ func (evpool *Pool) Update(state cstate.LatestBlockState, ev types.EvidenceList)
 	if evpool.Size() > 0 && state.LastBlockHeight > evpool.pruningHeight &&
 		state.LastBlockTime.After(evpool.pruningTime) {
 		evpool.pruningHeight, evpool.pruningTime = evpool.removeExpiredPendingEvidence()
+	} else if evpool.Size() > 0 {
+		// the remembered pruning point is computed late and never lowered when older evidence is added
+		// afterwards, so expired evidence could stay pending (and pass CheckEvidence): look every time
+		evpool.pruningHeight, evpool.pruningTime = evpool.removeExpiredPendingEvidence()
 	}
 }
 
